@@ -242,6 +242,114 @@ func flateCtor(level int) func(io.Writer) wsflate.Compressor {
 
 func flateDtor(r io.Reader) wsflate.Decompressor { return flate.NewReader(r) }
 
+// chunkPlan says in which pieces a compressor hands its output to the
+// wsflate.Writer: First (0 = no special first piece) then Sizes, cycled.
+// compress/flate writes whole blocks; another conforming Compressor may write
+// its bytes in any pieces, so the same stream is also delivered re-chunked.
+type chunkPlan struct {
+	First int
+	Sizes []int
+	i     int
+	began bool
+}
+
+func genChunkPlan(t *rapid.T, label string) *chunkPlan {
+	p := &chunkPlan{}
+	if rapid.IntRange(0, 2).Draw(t, label+".first?") != 0 {
+		p.First = rapid.IntRange(1, 3).Draw(t, label+".first")
+	}
+	p.Sizes = rapid.SliceOfN(rapid.SampledFrom([]int{1 << 20, 5, 1, 2, 3, 4, 6, 7, 8, 9, 1 << 20, 64}), 1, 6).Draw(t, label+".sizes")
+	return p
+}
+
+func (c *chunkPlan) String() string { return fmt.Sprintf("first=%d sizes=%v", c.First, c.Sizes) }
+
+func (c *chunkPlan) restart() { c.i, c.began = 0, false }
+
+// deliver writes b to w in the planned pieces.
+func (c *chunkPlan) deliver(w io.Writer, b []byte) error {
+	for len(b) > 0 {
+		var n int
+		if !c.began && c.First > 0 {
+			n = c.First
+		} else {
+			n = c.Sizes[c.i%len(c.Sizes)]
+			c.i++
+		}
+		c.began = true
+		if n > len(b) {
+			n = len(b)
+		}
+		if _, err := w.Write(b[:n]); err != nil {
+			return err
+		}
+		b = b[n:]
+	}
+	return nil
+}
+
+// rechunked is compress/flate behind a chunkPlan: a conforming Compressor
+// (same bytes, same tail at every flush) with a different write pattern. It
+// offers Close and the optional Reset of wsflate.WriteResetter.
+type rechunked struct {
+	fw    *flate.Writer
+	stage bytes.Buffer
+	out   io.Writer
+	plan  *chunkPlan
+}
+
+func (r *rechunked) forward() error {
+	err := r.plan.deliver(r.out, r.stage.Bytes())
+	r.stage.Reset()
+	return err
+}
+
+func (r *rechunked) Write(p []byte) (int, error) {
+	n, err := r.fw.Write(p)
+	if err != nil {
+		return n, err
+	}
+	return n, r.forward()
+}
+
+func (r *rechunked) Flush() error {
+	if err := r.fw.Flush(); err != nil {
+		return err
+	}
+	return r.forward()
+}
+
+func (r *rechunked) Close() error {
+	if err := r.fw.Close(); err != nil {
+		return err
+	}
+	return r.forward()
+}
+
+func (r *rechunked) Reset(w io.Writer) {
+	r.stage.Reset()
+	r.fw.Reset(&r.stage)
+	r.out = w
+	r.plan.restart()
+}
+
+// rechunkCtor: compress/flate at the level, delivered as plan says (nil plan = bare compress/flate).
+func rechunkCtor(level int, plan *chunkPlan) func(io.Writer) wsflate.Compressor {
+	if plan == nil {
+		return flateCtor(level)
+	}
+	return func(w io.Writer) wsflate.Compressor {
+		r := &rechunked{out: w, plan: plan}
+		plan.restart()
+		fw, err := flate.NewWriter(&r.stage, level)
+		if err != nil {
+			panic(err)
+		}
+		r.fw = fw
+		return r
+	}
+}
+
 type srcPlan struct {
 	Chunks      []int
 	ByteReader  bool
@@ -382,6 +490,14 @@ func TestRoundTrip(t *testing.T) {
 		plan1 := genSrcPlan(t, "src1")
 		plan2 := genSrcPlan(t, "src2")
 		big := len(payload) > 32<<10
+		var plan *chunkPlan
+		if rapid.IntRange(0, 2).Draw(t, "rechunk") != 0 {
+			plan = genChunkPlan(t, "plan")
+			hx.Class(fmt.Sprintf("roundtrip/compressor=rechunked/first=%d", plan.First))
+		} else {
+			hx.Class("roundtrip/compressor=bare-flate")
+		}
+		ctor := rechunkCtor(level, plan)
 
 		hx.Eval()
 		hx.Class("roundtrip/payload=" + class)
@@ -392,7 +508,7 @@ func TestRoundTrip(t *testing.T) {
 		if len(payload) > 0 && (pat.Writes >= 2 || pat.Flushes >= 2 || big) {
 			hx.NonTrivial(hx.Hash("rt", class, len(payload), pat.String(), fmt.Sprint(pat.sizes()), level, plan1.class(), plan2.class()), func() interface{} {
 				return map[string]interface{}{"test": "roundtrip", "payload_class": class, "payload_len": len(payload), "ops": pat.String(),
-					"write_sizes": pat.sizes(), "level": level, "ext_level": extLevel, "src_own": plan1.class(), "src_ext": plan2.class()}
+					"write_sizes": pat.sizes(), "compressor_output": fmt.Sprint(plan), "level": level, "ext_level": extLevel, "src_own": plan1.class(), "src_ext": plan2.class()}
 			})
 		}
 
@@ -401,15 +517,15 @@ func TestRoundTrip(t *testing.T) {
 		var w *wsflate.Writer
 		switch rapid.SampledFrom([]int{0, 0, 0, 1, 2}).Draw(t, "writer-reuse") {
 		case 0:
-			w = wsflate.NewWriter(rec, flateCtor(level))
+			w = wsflate.NewWriter(rec, ctor)
 		case 1: // documented reuse after a complete message
-			w = wsflate.NewWriter(tx.NewRec(), flateCtor(level))
+			w = wsflate.NewWriter(tx.NewRec(), ctor)
 			w.Write([]byte("previous message"))
 			w.Flush()
 			w.Reset(rec)
 			hx.Class("roundtrip/writer=reset-after-message")
 		default: // Reset drops unflushed data
-			w = wsflate.NewWriter(tx.NewRec(), flateCtor(level))
+			w = wsflate.NewWriter(tx.NewRec(), ctor)
 			w.Write([]byte("abandoned"))
 			w.Reset(rec)
 			hx.Class("roundtrip/writer=reset-mid-message")
@@ -426,7 +542,7 @@ func TestRoundTrip(t *testing.T) {
 				written = append(written, o.Data...)
 			case 'f':
 				if err := w.Flush(); err != nil {
-					t.Fatalf("op %d of %s: Flush: %v (compress/flate level %d is a conforming compressor)", i, pat, err, level)
+					t.Fatalf("op %d of %s: Flush: %v (compress/flate level %d, output delivered as %v, is a conforming compressor)", i, pat, err, level, plan)
 				}
 				if len(written) <= 8<<10 {
 					// every flush point is a possible end of message
@@ -454,7 +570,7 @@ func TestRoundTrip(t *testing.T) {
 		// Oracle A
 		got, msg := inflateMessage(own, closed)
 		if msg != "" {
-			t.Fatalf("%s level %d payload %s(%d): destination %s ++ 0000ffff: %s", pat, level, class, len(payload), short(own), msg)
+			t.Fatalf("%s level %d (compressor output delivered as %v) payload %s(%d): destination %s ++ 0000ffff: %s", pat, level, plan, class, len(payload), short(own), msg)
 		}
 		if !bytes.Equal(got, payload) {
 			t.Fatalf("%s level %d payload %s(%d): destination ++ 0000ffff inflates to a different message: %s", pat, level, class, len(payload), firstDiff(got, payload))
@@ -572,7 +688,11 @@ func TestFrameHelpers(t *testing.T) {
 		level := genLevel(t, "level")
 		variant := rapid.IntRange(0, 4).Draw(t, "variant")
 		in := ws.Frame{Header: h, Payload: append([]byte(nil), payload...)}
-		helper := wsflate.Helper{Compressor: flateCtor(level), Decompressor: flateDtor}
+		var plan *chunkPlan
+		if rapid.Bool().Draw(t, "rechunk") {
+			plan = genChunkPlan(t, "plan")
+		}
+		helper := wsflate.Helper{Compressor: rechunkCtor(level, plan), Decompressor: flateDtor}
 
 		hx.Eval()
 		hx.Class("frame/payload=" + class)
@@ -743,6 +863,113 @@ func TestFrameHelpers(t *testing.T) {
 	})
 }
 
+// Results the library allocates itself must stay valid when the helper is
+// called again: compress a batch first, look at all results afterwards; same
+// for decompression. (One goroutine, no caller-supplied buffers.)
+func TestFrameHelpersBatch(t *testing.T) {
+	hx.Check(t, 3, func(t *rapid.T) {
+		k := rapid.IntRange(2, 8).Draw(t, "k")
+		level := genLevel(t, "level")
+		variant := rapid.SampledFrom([]int{0, 2, 4}).Draw(t, "variant")
+		helper := wsflate.Helper{Compressor: flateCtor(level), Decompressor: flateDtor}
+		sameSize := rapid.Bool().Draw(t, "same-size")
+		n0 := rapid.IntRange(0, 400).Draw(t, "n0")
+		payloads := make([][]byte, k)
+		for i := range payloads {
+			n := n0
+			if !sameSize {
+				n = rapid.IntRange(0, 400).Draw(t, "n")
+			}
+			seed := rapid.Uint64().Draw(t, "seed")
+			if rapid.Bool().Draw(t, "text") {
+				payloads[i] = textBytes(seed, n)
+			} else {
+				payloads[i] = randomBytes(seed, n)
+			}
+		}
+		opc := rapid.SampledFrom([]ws.OpCode{ws.OpText, ws.OpBinary}).Draw(t, "op")
+		hx.Eval()
+		hx.Class(fmt.Sprintf("batch/variant=%d/same-size=%v", variant, sameSize))
+		hx.NonTrivial(hx.Hash("batch", k, variant, level, sameSize, n0, len(payloads[k-1])), func() interface{} {
+			return map[string]interface{}{"test": "frame-helpers-batch", "k": k, "variant": variant, "level": level, "same_size": sameSize}
+		})
+		name := map[int]string{0: "wsflate.CompressFrame/DecompressFrame", 2: "Helper.CompressFrame/DecompressFrame", 4: "Helper.Compress/Decompress"}[variant]
+
+		// --- compress all, then look at all
+		comp := make([]ws.Frame, k)
+		for i, p := range payloads {
+			in := ws.NewFrame(opc, true, append([]byte(nil), p...))
+			var err error
+			switch variant {
+			case 0:
+				comp[i], err = wsflate.CompressFrame(in)
+			case 2:
+				comp[i], err = helper.CompressFrame(in)
+			default:
+				var b []byte
+				b, err = helper.Compress(in.Payload)
+				comp[i] = ws.Frame{Header: in.Header, Payload: b}
+				comp[i].Header.Rsv |= 0x4
+				comp[i].Header.Length = int64(len(b))
+			}
+			if err != nil {
+				t.Fatalf("%s: frame %d of %d: %v", name, i, k, err)
+			}
+		}
+		snapshots := make([][]byte, k)
+		for i, c := range comp {
+			if c.Header.Length != int64(len(c.Payload)) {
+				t.Fatalf("%s: compressed frame %d of %d, looked at after the whole batch: Header.Length=%d, %d payload bytes", name, i, k, c.Header.Length, len(c.Payload))
+			}
+			got, msg := inflateMessage(c.Payload, true)
+			if msg != "" {
+				got, msg = inflateMessage(c.Payload, false)
+			}
+			if msg != "" {
+				t.Fatalf("%s: compressed frame %d of %d (payload %s), looked at after the whole batch: %s", name, i, k, short(c.Payload), msg)
+			}
+			if !bytes.Equal(got, payloads[i]) {
+				t.Fatalf("%s: compressed frame %d of %d, looked at after the whole batch, inflates to a different message: %s", name, i, k, firstDiff(got, payloads[i]))
+			}
+			snapshots[i] = append([]byte(nil), c.Payload...)
+		}
+
+		// --- decompress all, then look at all
+		dec := make([]ws.Frame, k)
+		for i := range comp {
+			in := ws.Frame{Header: comp[i].Header, Payload: append([]byte(nil), snapshots[i]...)}
+			var err error
+			switch variant {
+			case 0:
+				dec[i], err = wsflate.DecompressFrame(in)
+			case 2:
+				dec[i], err = helper.DecompressFrame(in)
+			default:
+				var b []byte
+				b, err = helper.Decompress(in.Payload)
+				dec[i] = ws.Frame{Header: ws.NewFrame(opc, true, b).Header, Payload: b}
+			}
+			if err != nil {
+				t.Fatalf("%s: decompressing frame %d of %d: %v", name, i, k, err)
+			}
+		}
+		for i, d := range dec {
+			want := ws.NewFrame(opc, true, payloads[i])
+			if d.Header != want.Header {
+				t.Fatalf("%s: decompressed frame %d of %d, looked at after the whole batch: header %s, want %s", name, i, k, hdrString(d.Header), hdrString(want.Header))
+			}
+			if !bytes.Equal(d.Payload, payloads[i]) {
+				t.Fatalf("%s: decompressed frame %d of %d, looked at after the whole batch, differs from the original: %s", name, i, k, firstDiff(d.Payload, payloads[i]))
+			}
+		}
+		for i, c := range comp {
+			if !bytes.Equal(c.Payload, snapshots[i]) {
+				t.Fatalf("%s: compressed frame %d of %d changed while other frames were decompressed", name, i, k)
+			}
+		}
+	})
+}
+
 // ---------------------------------------------------------------------------
 // bad compressors
 
@@ -767,6 +994,7 @@ type badCompressor struct {
 	drop    int
 	flushes int
 	goodFor int // the first goodFor flushes behave correctly
+	plan    *chunkPlan
 }
 
 func (b *badCompressor) forward(drop int) error {
@@ -774,7 +1002,12 @@ func (b *badCompressor) forward(drop int) error {
 	if drop > len(p) {
 		drop = len(p)
 	}
-	_, err := b.out.Write(p[:len(p)-drop])
+	var err error
+	if b.plan != nil {
+		err = b.plan.deliver(b.out, p[:len(p)-drop])
+	} else {
+		_, err = b.out.Write(p[:len(p)-drop])
+	}
 	b.stage.Reset()
 	return err
 }
@@ -869,9 +1102,13 @@ func TestBadCompressor(t *testing.T) {
 		goodFor := rapid.SampledFrom([]int{0, 0, 0, 1, 2}).Draw(t, "goodfor")
 		var em *emission
 		var bc *badCompressor
+		var plan *chunkPlan
+		if rapid.IntRange(0, 2).Draw(t, "rechunk") != 0 {
+			plan = genChunkPlan(t, "plan")
+		}
 		ctor := func(w io.Writer) wsflate.Compressor {
 			em = &emission{w: w}
-			bc = &badCompressor{mode: mode, out: em, goodFor: goodFor}
+			bc = &badCompressor{mode: mode, out: em, goodFor: goodFor, plan: plan}
 			bc.fw, _ = flate.NewWriter(&bc.stage, level)
 			return bc
 		}
@@ -980,7 +1217,7 @@ func TestBadCompressor(t *testing.T) {
 			hx.Class("bad/outcome=tail-present-every-flush")
 		}
 		if mode == "good" && failedAt >= 0 {
-			t.Fatalf("a conforming compressor (compress/flate level %d behind a recording wrapper) was reported as bad at step %d", level, failedAt)
+			t.Fatalf("a conforming compressor (compress/flate level %d behind a recording wrapper, output delivered as %v) was reported as bad at step %d", level, plan, failedAt)
 		}
 	})
 }
